@@ -197,6 +197,12 @@ func (s *parserListener) EnterValueFalse(ctx *parser.ValueFalseContext) {
 	})
 }
 
+// EnterValueNull is called when production valueNull is entered.
+// The null literal becomes an empty expression, whose evaluation is an error.
+func (s *parserListener) EnterValueNull(ctx *parser.ValueNullContext) {
+	s.expressionCallbacks.Peek()(&Expression{})
+}
+
 // EnterValueVar is called when production valueVar is entered.
 func (s *parserListener) EnterValueVar(ctx *parser.ValueVarContext) {
 	variableID := ctx.GetText()[1:]
